@@ -134,6 +134,8 @@ theorem good_rec (r : Rec) (last : Bool) (h : RecOK r last) (A C : Bytes) :
         · -- single line: BasesPerLine = length
           have hm : min r.width r.bases.length = r.bases.length := by omega
           rw [hm] at hle ⊢
+          have hz : ¬ (r.bases.length = 0) := by omega
+          simp only [hz, if_false]
           have hp : p < r.bases.length := by omega
           have hpw : p < r.width := by omega
           rw [Nat.div_eq_of_lt hp, Nat.mod_eq_of_lt hp] at hle ⊢
@@ -148,6 +150,8 @@ theorem good_rec (r : Rec) (last : Bool) (h : RecOK r last) (A C : Bytes) :
             simp only [if_true]; exact hle
         · have hm : min r.width r.bases.length = r.width := by omega
           rw [hm] at hle ⊢
+          have hz : ¬ (r.width = 0) := by omega
+          simp only [hz, if_false]
           simp only [hlen, false_and, if_false] at hle ⊢
           exact ⟨by omega, hle⟩
       obtain ⟨kpos, kle⟩ := key
